@@ -4,9 +4,14 @@ import (
 	"fmt"
 	"go/ast"
 	"go/constant"
+	"go/token"
 	"go/types"
+	"sort"
 	"strconv"
 	"strings"
+
+	"golang.org/x/tools/go/ssa"
+	"golang.org/x/tools/go/ssa/ssautil"
 )
 
 // TransDecl: "transitions <func> props C10 : S>D S>D ...": the fsm.Events literal returned by <func> is evaluated
@@ -151,4 +156,93 @@ func evalStringer(info *types.Info, files []*ast.File, e ast.Expr) (string, erro
 		}
 	}
 	return "", fmt.Errorf("String() of %s is not an array-literal lookup", named.Obj().Name())
+}
+
+// evalConstMap reads the composite literal that initialises the package-level map variable cd.Var and returns its
+// entries (constant keys and values as exact decimal strings).
+func evalConstMap(w *World, cd ConstMapDecl) (map[string]string, error) {
+	for path, p := range w.ByPath {
+		if !strings.HasPrefix(path, modulePath) || p.Name != cd.Pkg {
+			continue
+		}
+		for _, f := range p.Syntax {
+			for _, d := range f.Decls {
+				gd, ok := d.(*ast.GenDecl)
+				if !ok {
+					continue
+				}
+				for _, sp := range gd.Specs {
+					vs, ok := sp.(*ast.ValueSpec)
+					if !ok {
+						continue
+					}
+					for i, n := range vs.Names {
+						if n.Name != cd.Var || i >= len(vs.Values) {
+							continue
+						}
+						lit, ok := vs.Values[i].(*ast.CompositeLit)
+						if !ok {
+							return nil, fmt.Errorf("%s is not initialised by a composite literal", cd.Var)
+						}
+						out := map[string]string{}
+						for _, el := range lit.Elts {
+							kv, ok := el.(*ast.KeyValueExpr)
+							if !ok {
+								return nil, fmt.Errorf("%s: element without key", cd.Var)
+							}
+							kt, vt := p.TypesInfo.Types[kv.Key], p.TypesInfo.Types[kv.Value]
+							if kt.Value == nil || vt.Value == nil {
+								return nil, fmt.Errorf("%s: non-constant entry", cd.Var)
+							}
+							k := kt.Value.ExactString()
+							if kt.Value.Kind() == constant.String {
+								k = constant.StringVal(kt.Value)
+							}
+							out[k] = vt.Value.ExactString()
+						}
+						return out, nil
+					}
+				}
+			}
+		}
+	}
+	return nil, fmt.Errorf("package variable %s.%s not found", cd.Pkg, cd.Var)
+}
+
+// constMapWriters lists the functions (other than package initialisation) that store to the variable or update /
+// delete from the map it holds.
+func constMapWriters(w *World, cd ConstMapDecl) []string {
+	var out []string
+	isVar := func(v ssa.Value) bool {
+		if u, ok := v.(*ssa.UnOp); ok && u.Op == token.MUL {
+			v = u.X
+		}
+		g, ok := v.(*ssa.Global)
+		return ok && g.Name() == cd.Var && g.Pkg.Pkg.Name() == cd.Pkg
+	}
+	for fn := range ssautil.AllFunctions(w.Prog) {
+		if fn.Pkg == nil || !strings.HasPrefix(fn.Pkg.Pkg.Path(), modulePath) || fn.Name() == "init" || strings.HasPrefix(fn.Name(), "init#") {
+			continue
+		}
+		for _, b := range fn.Blocks {
+			for _, ins := range b.Instrs {
+				switch x := ins.(type) {
+				case *ssa.Store:
+					if g, ok := x.Addr.(*ssa.Global); ok && g.Name() == cd.Var && g.Pkg.Pkg.Name() == cd.Pkg {
+						out = append(out, funcKey(fn))
+					}
+				case *ssa.MapUpdate:
+					if isVar(x.Map) {
+						out = append(out, funcKey(fn))
+					}
+				case *ssa.Call:
+					if bi, ok := x.Call.Value.(*ssa.Builtin); ok && (bi.Name() == "delete" || bi.Name() == "clear") && len(x.Call.Args) > 0 && isVar(x.Call.Args[0]) {
+						out = append(out, funcKey(fn))
+					}
+				}
+			}
+		}
+	}
+	sort.Strings(out)
+	return out
 }
